@@ -380,16 +380,16 @@ Proof.
 Qed.
 
 Lemma create_uniform o d bs is : uniform bs is ->
-  exists g n m, create o d bs is = Some g /\ sf_origin g = o /\ sf_dest g = d
-    /\ sf_batches g = renumber n bs /\ sf_iat g = renumber m is
+  exists g m, create o d bs is = Some g /\ sf_origin g = o /\ sf_dest g = d
+    /\ sf_batches g = renumber 1 bs /\ sf_iat g = renumber m is
     /\ sf_credit g = tot_credit bs + tot_credit is /\ sf_debit g = tot_debit bs + tot_debit is.
 Proof.
   intros Hu. unfold create. destruct (is_adv_file bs) eqn:E.
   - destruct Hu as [[Hall ->]|Hnone].
-    + rewrite Hall. eexists _, 1, 0. split; [reflexivity|]. cbn [sf_origin sf_dest sf_batches sf_iat sf_credit sf_debit renumber tot_credit tot_debit].
+    + rewrite Hall. eexists _, 0. split; [reflexivity|]. cbn [sf_origin sf_dest sf_batches sf_iat sf_credit sf_debit renumber tot_credit tot_debit].
       rewrite renumber_credit, renumber_debit. repeat split; lia.
     + rewrite (no_adv_not_adv_file _ Hnone) in E. discriminate.
-  - eexists _, 1, _. split; [reflexivity|]. cbn [sf_origin sf_dest sf_batches sf_iat sf_credit sf_debit].
+  - eexists _, _. split; [reflexivity|]. cbn [sf_origin sf_dest sf_batches sf_iat sf_credit sf_debit].
     rewrite !renumber_credit, !renumber_debit. repeat split.
 Qed.
 
@@ -411,7 +411,7 @@ Section FileLevel.
     | Some g => match validate T g with None => inl g | Some v => inr (EOutput v) end
     end = inl cf -> finished o d bs is cf.
   Proof.
-    intros Hu H. destruct (create_uniform o d bs is Hu) as (g & n & m & Hc & Ho & Hd & Hb & Hi & Hcr & Hde).
+    intros Hu H. destruct (create_uniform o d bs is Hu) as (g & m & Hc & Ho & Hd & Hb & Hi & Hcr & Hde).
     rewrite Hc in H. destruct (validate T g) eqn:Ev; [discriminate|]. injection H as <-.
     constructor; auto.
     - unfold file_ids. now rewrite Hb, Hi, !renumber_ids.
